@@ -374,7 +374,16 @@ def domain(t, rng, arity):
     if t == BOOL:
         return [False, True]
     if t[0] == 'BV':
-        return list(range(2 ** t[1]))
+        w = t[1]
+        if w <= 8:
+            return list(range(2 ** w))
+        # wide vectors: boundary values and a few random ones
+        m = 2 ** w
+        vals = set([0, 1, 2, 3, m // 2 - 1, m // 2, m // 2 + 1, m - 2, m - 1,
+                    w - 1, w, w + 1, 2 ** (w // 2)])
+        while len(vals) < (18 if arity <= 2 else 8):
+            vals.add(rng.randrange(m))
+        return sorted(v for v in vals if 0 <= v < m)
     g = GRID_INT if t == INT else GRID_REAL
     if arity <= 2:
         return g
@@ -478,19 +487,24 @@ def run(rep):
     env = common.fresh_env()
     mgr = env.formula_manager
     allc = list(cases(mgr, S))
-    widths = (1, 2, 3, 4) if rep.tier == 'quick' else (1, 2, 3, 4, 5)
+    widths = (1, 2, 3, 4, 16, 64) if rep.tier == 'quick' else \
+        (1, 2, 3, 4, 5, 6, 7, 8, 13, 16, 32, 64, 65)
     for w in widths:
         for c in bv_cases(mgr, w):
-            # 3-ary and larger only on small widths
-            if len(c[1]) >= 3 and w > 3:
+            # exhaustive 3-ary and larger only on small widths (wide
+            # vectors are sampled, every arity)
+            if len(c[1]) >= 3 and 3 < w <= 8:
                 continue
-            if len(c[1]) >= 4 and w > 2:
+            if len(c[1]) >= 4 and 2 < w <= 8:
                 continue
             allc.append(c)
     for i, (name, sorts, build, py) in enumerate(allc):
         if i % rep.nshards != rep.shard:
             continue
         if rep.only and rep.only not in name:
+            continue
+        if rep.out_of_time():
+            rep.count('cases_skipped_out_of_time')
             continue
         run_case(rep, env, name, sorts, build, py, rng)
     if rep.shard == 0:
